@@ -55,6 +55,10 @@ func RunS2(c *core.Ctx) {
 			// exactly one .pulsar.go per requested file
 			var got []string
 			for n := range r.Files {
+				// annotate_code=true adds a .meta file (GeneratedCodeInfo) beside each source file
+				if strings.HasSuffix(n, ".go.meta") && strings.Contains(sc.Param, "annotate_code=true") {
+					continue
+				}
 				got = append(got, n)
 			}
 			sort.Strings(got)
